@@ -40,8 +40,9 @@ class OTelMetrics(MetricProcessor):
         self.__cache = {}
         self.__lock = threading.Lock()
 
-    def __check_cache(self, name, type_name, from_default):
-        cache_key = f'{name}_{type_name}'
+    def __check_cache(self, namespace, name, type_name, from_default):
+        # the namespace is part of the name of a metric: 'orders' of namespace 'shop' is not 'orders' of 'billing'
+        cache_key = f'{namespace}_{name}_{type_name}'
         if cache_key in self.__cache:
             return self.__cache[cache_key]
         default = from_default()
@@ -62,7 +63,7 @@ class OTelMetrics(MetricProcessor):
         try:
             with self.__lock:
                 counter: Counter
-                counter = self.__check_cache(name, 'counter',
+                counter = self.__check_cache(namespace, name, 'counter',
                                              lambda: get_meter('deep').create_counter(f'{namespace}_{name}', unit,
                                                                                       help_string))
                 counter.add(value, labels)
@@ -83,7 +84,7 @@ class OTelMetrics(MetricProcessor):
         try:
             with self.__lock:
                 gauge: UpDownCounter
-                gauge = self.__check_cache(name, 'gauge',
+                gauge = self.__check_cache(namespace, name, 'gauge',
                                            lambda: get_meter('deep').create_up_down_counter(f'{namespace}_{name}',
                                                                                             unit, help_string))
                 gauge.add(value, labels)
@@ -104,7 +105,7 @@ class OTelMetrics(MetricProcessor):
         try:
             with self.__lock:
                 histogram: Histogram
-                histogram = self.__check_cache(name, 'histogram',
+                histogram = self.__check_cache(namespace, name, 'histogram',
                                                lambda: get_meter('deep').create_histogram(f'{namespace}_{name}', unit,
                                                                                           help_string))
                 histogram.record(value, labels)
@@ -125,7 +126,7 @@ class OTelMetrics(MetricProcessor):
         try:
             with self.__lock:
                 histogram: Histogram
-                histogram = self.__check_cache(name, 'summary',
+                histogram = self.__check_cache(namespace, name, 'summary',
                                                lambda: get_meter('deep').create_histogram(f'{namespace}_{name}', unit,
                                                                                           help_string))
                 histogram.record(value, labels)
